@@ -293,11 +293,26 @@ package wire
 //@ define wfCalls(calls []call, n int) = forall k :: 0 <= k && k < len(calls) ==> 0 <= calls[k].kind && calls[k].kind <= 3 && calls[k].out != nil && (calls[k].kind <= 1 ==> calls[k].pkg != nil) && (calls[k].kind == 1 ==> len(calls[k].fieldNames) == len(calls[k].args)) && (calls[k].kind == 3 ==> len(calls[k].args) >= 1) && (calls[k].kind == 2 ==> calls[k].valueTypeInfo != nil && calls[k].valueExpr != nil) && (forall j :: 0 <= j && j < len(calls[k].args) ==> 0 <= calls[k].args[j] && calls[k].args[j] < n + k)
 //@ define distinctNames(names []string) = forall a, b :: 0 <= a && a < b && b < len(names) ==> names[a] != names[b]
 
+// C12: a struct provider is emitted as one composite literal (of the struct, or its address) whose
+// keyed elements are exactly the call's field names, each set from the slot of its argument; a field
+// provider reads `.name` of its parent's slot, or takes its address when it provides the pointer.
+//@ define slotName(ig *injectorGen, a int) = a < len(ig.paramNames) ? ig.paramNames[a] : ig.localNames[a - len(ig.paramNames)]
 //@ func (*injectorGen).structProviderCall
 //@   requires c.pkg != nil && argsInRange(ig, c) && len(c.fieldNames) == len(c.args)
 //@   modifies OUTLEN[&ig.g.buf], OUTEV[&ig.g.buf], mapof(ig.g.imports)
 //@   ensures ig.discard ==> OUTLEN[&ig.g.buf] == old(OUTLEN[&ig.g.buf])
 //@   loop 1 invariant ig.discard ==> OUTLEN[&ig.g.buf] == old(OUTLEN[&ig.g.buf])
+//@   ensures [C12] !ig.discard ==> OUTLEN[&ig.g.buf] == old(OUTLEN[&ig.g.buf]) + 4 + ((c.out is *types.Pointer) ? 1 : 0) + 3 * len(c.args)
+//@   ensures [C12] !ig.discard ==> OUTEV[&ig.g.buf][old(OUTLEN[&ig.g.buf])] == ev("\t%s", lname) && OUTEV[&ig.g.buf][old(OUTLEN[&ig.g.buf]) + 1] == ev(" := ")
+//@   ensures [C12] !ig.discard && (c.out is *types.Pointer) ==> OUTEV[&ig.g.buf][old(OUTLEN[&ig.g.buf]) + 2] == ev("&")
+//@   ensures [C12] !ig.discard ==> evfmt(OUTEV[&ig.g.buf][old(OUTLEN[&ig.g.buf]) + 2 + ((c.out is *types.Pointer) ? 1 : 0)]) == "%s{\n"
+//@   ensures [C12] !ig.discard ==> forall k :: 0 <= k && k < len(c.args) ==> OUTEV[&ig.g.buf][old(OUTLEN[&ig.g.buf]) + 3 + ((c.out is *types.Pointer) ? 1 : 0) + 3 * k] == ev("\t\t%s: ", c.fieldNames[k]) && OUTEV[&ig.g.buf][old(OUTLEN[&ig.g.buf]) + 4 + ((c.out is *types.Pointer) ? 1 : 0) + 3 * k] == ev("%s", slotName(ig, c.args[k])) && OUTEV[&ig.g.buf][old(OUTLEN[&ig.g.buf]) + 5 + ((c.out is *types.Pointer) ? 1 : 0) + 3 * k] == ev(",\n")
+//@   ensures [C12] !ig.discard ==> OUTEV[&ig.g.buf][OUTLEN[&ig.g.buf] - 1] == ev("\t}\n")
+//@   loop 1 invariant [C12] !ig.discard ==> OUTLEN[&ig.g.buf] == old(OUTLEN[&ig.g.buf]) + 3 + ((c.out is *types.Pointer) ? 1 : 0) + 3 * done
+//@   loop 1 invariant [C12] !ig.discard ==> OUTEV[&ig.g.buf][old(OUTLEN[&ig.g.buf])] == ev("\t%s", lname) && OUTEV[&ig.g.buf][old(OUTLEN[&ig.g.buf]) + 1] == ev(" := ")
+//@   loop 1 invariant [C12] !ig.discard && (c.out is *types.Pointer) ==> OUTEV[&ig.g.buf][old(OUTLEN[&ig.g.buf]) + 2] == ev("&")
+//@   loop 1 invariant [C12] !ig.discard ==> evfmt(OUTEV[&ig.g.buf][old(OUTLEN[&ig.g.buf]) + 2 + ((c.out is *types.Pointer) ? 1 : 0)]) == "%s{\n"
+//@   loop 1 invariant [C12] !ig.discard ==> forall k :: 0 <= k && k < done ==> OUTEV[&ig.g.buf][old(OUTLEN[&ig.g.buf]) + 3 + ((c.out is *types.Pointer) ? 1 : 0) + 3 * k] == ev("\t\t%s: ", c.fieldNames[k]) && OUTEV[&ig.g.buf][old(OUTLEN[&ig.g.buf]) + 4 + ((c.out is *types.Pointer) ? 1 : 0) + 3 * k] == ev("%s", slotName(ig, c.args[k])) && OUTEV[&ig.g.buf][old(OUTLEN[&ig.g.buf]) + 5 + ((c.out is *types.Pointer) ? 1 : 0) + 3 * k] == ev(",\n")
 //@ func (*injectorGen).valueExpr
 //@   modifies OUTLEN[&ig.g.buf], OUTEV[&ig.g.buf]
 //@   ensures ig.discard ==> OUTLEN[&ig.g.buf] == old(OUTLEN[&ig.g.buf])
@@ -305,6 +320,10 @@ package wire
 //@   requires argsInRange(ig, c) && len(c.args) >= 1
 //@   modifies OUTLEN[&ig.g.buf], OUTEV[&ig.g.buf]
 //@   ensures ig.discard ==> OUTLEN[&ig.g.buf] == old(OUTLEN[&ig.g.buf])
+//@   ensures [C12] !ig.discard ==> OUTLEN[&ig.g.buf] == old(OUTLEN[&ig.g.buf]) + 2 + (c.ptrToField ? 1 : 0)
+//@   ensures [C12] !ig.discard ==> OUTEV[&ig.g.buf][old(OUTLEN[&ig.g.buf])] == ev("\t%s := ", lname)
+//@   ensures [C12] !ig.discard && c.ptrToField ==> OUTEV[&ig.g.buf][old(OUTLEN[&ig.g.buf]) + 1] == ev("&")
+//@   ensures [C12] !ig.discard ==> OUTEV[&ig.g.buf][OUTLEN[&ig.g.buf] - 1] == ev("%s.%s\n", slotName(ig, c.args[0]), c.name)
 
 //@ func injectPass
 //@   nullable doc
@@ -487,13 +506,32 @@ package wire
 //@   ensures result.1 == nil ==> result.0 != nil
 //@ func processStructProvider
 //@   ensures result.1 == nil ==> result.0 != nil
+//@   ensures [C12] result.1 == nil ==> result.0.IsStruct && len(result.0.Out) == 2 && result.0.Out[1] == info.TypeOf(call.Args[0]) && result.0.Out[0] == info.TypeOf(call.Args[0]).(*types.Pointer).Elem()
+//@   lensures [C12] result.1 == nil ==> forall k :: 0 <= k && k < len(provider.Args) ==> argIsField(provider.Args[k], st)
+//@   lensures [C12] result.1 == nil && allFields(call) ==> forall q :: 0 <= q && q < st.NumFields() && !isPrevented(st.Tag(q)) ==> exists k :: 0 <= k && k < len(provider.Args) && provider.Args[k].FieldName == st.Field(q).Name() && provider.Args[k].Type == st.Field(q).Type()
+//@   lensures [C12] result.1 == nil && !allFields(call) ==> len(provider.Args) == len(call.Args) - 1 && forall k :: 0 <= k && k < len(provider.Args) ==> (call.Args[k + 1] is *ast.BasicLit) && provider.Args[k].FieldName == unquote(call.Args[k + 1].(*ast.BasicLit).Value)
+//@   loop 1 invariant [C12] forall k :: 0 <= k && k < len(provider.Args) ==> argIsField(provider.Args[k], st)
+//@   loop 1 invariant [C12] 0 <= i && forall q :: 0 <= q && q < i && q < st.NumFields() && !isPrevented(st.Tag(q)) ==> exists k :: 0 <= k && k < len(provider.Args) && provider.Args[k].FieldName == st.Field(q).Name() && provider.Args[k].Type == st.Field(q).Type()
+//@   loop 3 invariant [C12] allFields(call) ==> forall q :: 0 <= q && q < st.NumFields() && !isPrevented(st.Tag(q)) ==> exists k :: 0 <= k && k < len(provider.Args) && provider.Args[k].FieldName == st.Field(q).Name() && provider.Args[k].Type == st.Field(q).Type()
+//@   loop 3 invariant [C12] !allFields(call) ==> len(provider.Args) == len(call.Args) - 1 && forall k :: 0 <= k && k < len(provider.Args) ==> (call.Args[k + 1] is *ast.BasicLit) && provider.Args[k].FieldName == unquote(call.Args[k + 1].(*ast.BasicLit).Value)
+//@   loop 4 invariant [C12] allFields(call) ==> forall q :: 0 <= q && q < st.NumFields() && !isPrevented(st.Tag(q)) ==> exists k :: 0 <= k && k < len(provider.Args) && provider.Args[k].FieldName == st.Field(q).Name() && provider.Args[k].Type == st.Field(q).Type()
+//@   loop 4 invariant [C12] !allFields(call) ==> len(provider.Args) == len(call.Args) - 1 && forall k :: 0 <= k && k < len(provider.Args) ==> (call.Args[k + 1] is *ast.BasicLit) && provider.Args[k].FieldName == unquote(call.Args[k + 1].(*ast.BasicLit).Value)
+//@   loop 2 invariant [C12] forall k :: 0 <= k && k < i - 1 ==> argIsField(provider.Args[k], st) && (call.Args[k + 1] is *ast.BasicLit) && provider.Args[k].FieldName == unquote(call.Args[k + 1].(*ast.BasicLit).Value)
 //@   loop 1 invariant forall k :: 0 <= k && k < len(provider.Args) ==> provider.Args[k].Type != nil
 //@   loop 2 invariant 1 <= i && i - 1 <= len(provider.Args) && len(provider.Args) == len(call.Args) - 1
 //@   loop 2 invariant forall k :: 0 <= k && k < i - 1 ==> provider.Args[k].Type != nil
 //@   loop 3 invariant forall k :: 0 <= k && k < len(provider.Args) ==> provider.Args[k].Type != nil
 //@   loop 4 invariant forall k :: 0 <= k && k < len(provider.Args) ==> provider.Args[k].Type != nil
+// C12: field names are matched exactly as written; prevented fields are refused.
+//@ define argIsField(a ProviderInput, st *types.Struct) = exists j :: 0 <= j && j < st.NumFields() && a.FieldName == st.Field(j).Name() && a.Type == st.Field(j).Type() && !isPrevented(st.Tag(j))
+//@ func allFields
+//@   pure
+//@ func isPrevented
+//@   pure
+//@   ensures [C12] result == (tagget(tag, "wire") == "-")
 //@ func checkField
 //@   ensures result.1 == nil ==> result.0 != nil
+//@   ensures [C12] result.1 == nil ==> (f is *ast.BasicLit) && exists i :: 0 <= i && i < st.NumFields() && result.0 == st.Field(i) && st.Field(i).Name() == unquote(f.(*ast.BasicLit).Value) && !isPrevented(st.Tag(i))
 
 //@ func (*providerSetSrc).description
 //@   requires wfSrc(p)
@@ -719,3 +757,9 @@ package wire
 //@   ensures len(result) == len(errs)
 //@ func notePositionAll
 //@   ensures len(result) == len(errs)
+
+// C12: wire.FieldsOf provides, per named field, the field's type and (for a pointer to the struct) also a pointer to it.
+//@ define fieldOut(f *Field, st *types.Struct, isPtr bool) = exists j :: 0 <= j && j < st.NumFields() && f.Name == st.Field(j).Name() && !isPrevented(st.Tag(j)) && len(f.Out) == (isPtr ? 2 : 1) && f.Out[0] == st.Field(j).Type() && (isPtr ==> f.Out[1] == box(types.NewPointer(st.Field(j).Type())))
+//@ func processFieldsOf
+//@   lensures [C12] result.1 == nil ==> len(fields) == len(call.Args) - 1 && forall k :: 0 <= k && k < len(fields) ==> fields[k] != nil && fields[k].Parent == structPtr.Elem() && (call.Args[k + 1] is *ast.BasicLit) && fields[k].Name == unquote(call.Args[k + 1].(*ast.BasicLit).Value) && fieldOut(fields[k], struc, isPtrToStruct)
+//@   loop 1 invariant [C12] 1 <= i && i <= len(call.Args) && len(fields) == i - 1 && forall k :: 0 <= k && k < len(fields) ==> fields[k] != nil && fields[k].Parent == structPtr.Elem() && (call.Args[k + 1] is *ast.BasicLit) && fields[k].Name == unquote(call.Args[k + 1].(*ast.BasicLit).Value) && fieldOut(fields[k], struc, isPtrToStruct)
